@@ -15,14 +15,17 @@ import math
 import torch
 
 import common
+import optics
 from common import dyadic
 
 PID = "C03"
 M_E = 510998.95069          # Optics/Maps.v m_e; asserted against cheetah on every run
 PREAMBLE = """From Coq Require Import Reals Lra.
 From Interval Require Import Tactic.
-From Cheetah Require Import Base.Mat Optics.Maps Optics.Sympl Optics.SymplProofs Optics.SymplCorr Bmadx.SymplX.
+From Cheetah Require Import Base.Mat Optics.Maps Optics.Sympl Optics.SymplProofs Optics.SymplCorr Bmadx.SymplX Optics.UndFixed.
 Open Scope R_scope.
+Ltac c03_und := lazy beta iota zeta delta [m7nth v7nth row c0 c1 c2 c3 c4 c5 c6 und_map]; rewrite ?und_igamma2_is; rewrite ?igamma2_pos by lra; unfold m_e, Rsqr; interval with (i_prec 80).
+Ltac c03_und_fixed := rewrite und_map_fixed_is_drift; c03_drift.
 Ltac c03_driftx := unfold driftx_dx, driftx_dy, driftx_dz, driftx_g, sqrt_one, dx_Pl, dx_Pxy2; interval with (i_prec 80)."""
 
 S6 = torch.zeros(6, 6, dtype=torch.float64)
@@ -247,10 +250,27 @@ def entry_goal(model, i, j, v, tol, tac):
     return (f"Rabs (m7nth ({model}) {i} {j} - {dyadic(v)}) <= {dyadic(tol)}", tac)
 
 
+def und_fixed_by_status():
+    """which Undulator transcription of Optics/Maps.v is the faithful one: und_map while finding F3 (Undulator R56) is listed
+    `known` (F3 is a finding of C02/C09 -- both transcriptions are symplectic and affine, C03 holds either way), und_map_fixed
+    once it has been flipped to `fixed`"""
+    st = optics.finding_status(PID, "F3") or optics.finding_status("C02", "F3") or optics.finding_status("C09", "F3")
+    return st != "known"
+
+
+def und_model(kw, E, fixed):
+    if fixed:
+        return f"und_map_fixed {dyadic(kw['length'])} {dyadic(E)}", "c03_und_fixed."
+    return f"und_map {dyadic(kw['length'])} {dyadic(E)}", "c03_und."
+
+
 def corr_cases(rng, n):
     cases = []
     for _ in range(n):
         cases.append(("drift", {"cls": "Drift", "kw": dict(length=pick(rng, LEN, 0.0, 10.0))}, gen_energy(rng)))
+    for q in range(max(3, n // 2)):
+        L = [1.0, 0.0][q] if q < 2 else pick(rng, LEN, 0.0, 3.0)
+        cases.append(("und", {"cls": "Undulator", "kw": dict(length=L, is_active=rng.choice([False, True]))}, gen_energy(rng)))
     regimes = [0.0, 2.0, -3.0, 1e-6, -1e-6]
     for q in range(max(n, len(regimes))):
         while True:
@@ -277,6 +297,7 @@ def corr_cases(rng, n):
 
 NONTRIVIAL = {
     "drift": [(0, 1), (2, 3), (4, 5)],
+    "und": [(0, 1), (2, 3), (4, 5)],
     "quad": [(0, 0), (0, 1), (1, 0), (1, 1), (2, 2), (2, 3), (3, 2), (3, 3), (4, 5)],
     "sol": [(i, j) for i in range(4) for j in range(4)] + [(4, 5)],
     "cav": [(0, 0), (0, 1), (1, 0), (1, 1)],
@@ -290,6 +311,13 @@ def correspondence(run, n):
         run.notes.append(f"electron_mass_eV={ph.electron_mass_eV!r} differs from the model constant {M_E}: entry correspondence skipped")
         return [], []
     cases = corr_cases(run.rng, n)
+    # helper theories the generated goals load but Props/C03.v does not import: keep them up to date with the model
+    for tgt in ("theories/Optics/SymplCorr.vo", "theories/Optics/UndFixed.vo"):
+        ok, log = common.coq_build(tgt)
+        if not ok:
+            return [], [{"kind": "corr_build", "detail": f"coq build of {tgt} failed: {log[-600:]}"}]
+    und_fixed = und_fixed_by_status()
+    run.cov["undulator_model"] = optics.undulator_variant_name(und_fixed)
     goals, ctx, structural = [], [], []
     for kind, spec, E in cases:
         el = build(spec)
@@ -303,6 +331,8 @@ def correspondence(run, n):
         kw = spec["kw"]
         if kind == "drift":
             model, tac = f"drift_map {dyadic(kw['length'])} {dyadic(E)}", "c03_drift."
+        elif kind == "und":
+            model, tac = und_model(kw, E, und_fixed)
         elif kind == "quad":
             model, tac = f"quad_map {dyadic(kw['length'])} {dyadic(kw['k1'])} 0 0 0 {dyadic(E)}", "c03_quad."
         elif kind == "sol":
@@ -362,6 +392,22 @@ def correspondence(run, n):
                 ctx.append({"kind": "corr_driftx", "class": "bmadx.track_a_drift", "coordinate": name, "length": L,
                             "point": [x, px, y, py, z, pz], "energy": E, "observed": out})
     failing, errs = common.run_real_goals(PID, "entries", PREAMBLE, goals, shard=24)
+    # Undulator entries that disagree with the transcription selected by the status of F3: evaluate the other one.  Both are
+    # proved symplectic and affine (C03_sympl_undulator / C03_sympl_undulator_fixed ...), so for C03 a stale status is a note only.
+    und_fail = [i for i in failing if ctx[i].get("class") == "und"]
+    if und_fail:
+        g2 = []
+        for i in und_fail:
+            c = ctx[i]
+            m2, t2 = und_model(c["spec"]["kw"], c["energy"], not und_fixed)
+            g2.append((goals[i][0].replace("(" + und_model(c["spec"]["kw"], c["energy"], und_fixed)[0] + ")", "(" + m2 + ")"), t2))
+        f2, _ = common.run_real_goals(PID, "entries_und_other", PREAMBLE, g2, shard=24)
+        if not f2:
+            other = optics.undulator_variant_name(not und_fixed)
+            run.notes.append(f"Undulator.transfer_map equals {other}, not the transcription selected by the status of finding F3 "
+                             f"({'known' if not und_fixed else 'fixed'}): the status is stale; C03 is proved for both transcriptions")
+            run.cov["undulator_model"] = other + " [status of F3 is stale]"
+            failing = [i for i in failing if i not in und_fail]
     run.cov["traces_validated_against_impl"] += len(goals) - len(failing)
     run.cov["interval_goals"] = len(goals)
     out = []
